@@ -88,6 +88,43 @@ theorem C39_rendered (caller : Env) (items : List Item) (k : Str)
       | none => caller.get k := by
   rw [C39_env_full, C39_parse items hq hp]
 
+/-! ### no state is carried between jobs on one Lmod object -/
+
+/-- the object has no field besides `modules`, `execute` assigns nothing on `self`, and its first statement runs
+    `lmod python load <self.modules>` unconditionally, once -/
+theorem C39_stateless_pinned :
+    EnvRegexes.lmodFields = ["modules"] ∧ EnvRegexes.lmodExecuteSelfWrites = []
+    ∧ EnvRegexes.lmodExecuteFirstStmt = "env_src = self.run_lmod_cmd('python', 'load', *self.modules)"
+    ∧ EnvRegexes.lmodExecuteLoadCalls = 1 := ⟨rfl, rfl, rfl, rfl⟩
+
+theorem runObj_tree (load : Loader) (h : List Run) : runObj (stepTree load) () h = h.map (executeEnv load) := by
+  induction h with
+  | nil => rfl
+  | cons r rs ih => simp [runObj, stepTree, ih]
+
+/-- FULL, histories of any length on one object, any lmod executable, caller environment and modules changed at will
+    between the jobs: the environment of the k-th job is the single-run semantics on the k-th (modules, caller
+    environment) — nothing of the earlier jobs matters. -/
+theorem C39_history_independent (load : Loader) (h : List Run) (k : Nat) :
+    (runObj (stepTree load) () h)[k]? = h[k]?.map (executeEnv load) := by
+  rw [runObj_tree]; simp
+
+/-- the same for a history cut anywhere: a job's environment does not depend on what ran before it -/
+theorem C39_prefix_irrelevant (load : Loader) (pre : List Run) (r : Run) :
+    (runObj (stepTree load) () (pre ++ [r])).getLast? = some (executeEnv load r) := by
+  rw [runObj_tree]; simp
+
+/-- WITNESS for the memoising variant: PATH is extended between two jobs; the second job gets the PATH computed for
+    the first environment (the caller's extension is lost), where the single-run semantics prepends to the new PATH -/
+theorem C39_witness_memo :
+    let load := prependLoader "PATH".toList "/opt/mod/bin".toList
+    let h : List Run := [⟨["m".toList], [("PATH".toList, "/usr/bin".toList)]⟩,
+                          ⟨["m".toList], [("PATH".toList, "/home/u/bin:/usr/bin".toList)]⟩]
+    ((runObj (stepMemo load) none h).map (fun e => e.get "PATH".toList))
+        = [some "/opt/mod/bin:/usr/bin".toList, some "/opt/mod/bin:/usr/bin".toList]
+    ∧ ((runObj (stepTree load) () h).map (fun e => e.get "PATH".toList))
+        = [some "/opt/mod/bin:/usr/bin".toList, some "/opt/mod/bin:/home/u/bin:/usr/bin".toList] := by decide
+
 /-! ### the command's return code -/
 
 /-- the failure test of `Lmod.execute` (regenerated from the source) is true on every non-zero return code, negative
